@@ -1090,6 +1090,11 @@ impl ChainListener for ChainMonitor {
         state.on_remove_block_end(block_hash, decode_state.as_mut().unwrap())
     }
 
+    fn on_streamed_block_start(&self) {
+        // drop the partial decode state of a streamed block that was never completed
+        self.decode_state.lock().expect("lock").take();
+    }
+
     fn on_push<F>(&self, f: F)
     where
         F: FnOnce(&mut dyn push_decoder::Listener),
